@@ -121,6 +121,39 @@ pub assume_specification<T> [Option::<T>::or] (a: Option<T>, b: Option<T>) -> (r
 
 // ---- the fiber's operand stack (A-fiber): the real Fiber keeps a raw stack_top pointer into a Vec; its
 // push/pop/peek/peek_set/drop/drop_n are modelled as a Vec, with the depth precondition the real code leaves unchecked
+#[verifier::external_body]
+#[derive(Clone, Copy)]
+pub struct ClassRef { p: usize }      // ObjRef<Class>
+
+#[verifier::external_body]
+#[derive(Clone, Copy)]
+pub struct InstRef { p: usize }       // Instance
+
+/// A-heap: the class graph as the handlers observe it
+pub uninterp spec fn subclass(a: ClassRef, b: ClassRef) -> bool;     // a.is_subclass(b): a == b or a inherits from b
+pub uninterp spec fn class_of_inst(i: InstRef) -> ClassRef;
+pub uninterp spec fn o_class(o: ObjectRef) -> ClassRef;
+pub uninterp spec fn o_inst(o: ObjectRef) -> InstRef;
+pub uninterp spec fn from_inst(i: InstRef) -> Value;
+
+impl ClassRef {
+  #[verifier::external_body] pub fn is_subclass(&self, other: ClassRef) -> (r: bool) ensures r == subclass(*self, other) { true }
+}
+impl InstRef {
+  #[verifier::external_body] pub fn class(&self) -> (r: ClassRef) ensures r == class_of_inst(*self) { ClassRef { p: 0 } }
+}
+impl ObjectRef {
+  #[verifier::external_body] pub fn to_class(&self) -> (r: ClassRef) requires o_kind(*self) == ObjectKind::Class ensures r == o_class(*self) { ClassRef { p: 0 } }
+  #[verifier::external_body] pub fn to_instance(&self) -> (r: InstRef) requires o_kind(*self) == ObjectKind::Instance ensures r == o_inst(*self) { InstRef { p: 0 } }
+}
+impl IntoValue for InstRef {
+  open spec fn into_value_spec(self) -> Value { from_inst(self) }
+  #[verifier::external_body] fn into_value(self) -> (r: Value) { Value { bits: 0 } }
+}
+
+/// an active exception handler: where its catch code starts and how deep the stack was at its try
+pub struct Handler { pub offset: int, pub depth: int }
+
 #[derive(Clone, Copy, PartialEq, Eq, Structural)]
 pub enum FState { Running, Pending, Blocked }
 
@@ -138,12 +171,49 @@ pub struct Fiber {
   pub pool: Ghost<Seq<WaiterRef>>,
   /// ghost: channels recorded as used by this fiber
   pub used: Ghost<Set<ChanRef>>,
+  /// ghost: the active exception handlers, innermost last
+  pub handlers: Ghost<Seq<Handler>>,
+  /// the error in flight while the fiber unwinds
+  pub error: Option<InstRef>,
+  /// ghost: the fiber was told that an error occurred while it was handling one
+  pub error_in_handler: Ghost<bool>,
 }
 
 /// frame of the stack operations: nothing but the operand stack changes
-pub open spec fn only_stack(o: &Fiber, n: &Fiber) -> bool { n.state == o.state && n.me == o.me && n.pool == o.pool && n.used == o.used }
+pub open spec fn only_stack(o: &Fiber, n: &Fiber) -> bool {
+  n.state == o.state && n.me == o.me && n.pool == o.pool && n.used == o.used && n.handlers == o.handlers && n.error == o.error && n.error_in_handler == o.error_in_handler
+}
+
+/// frame of the channel / scheduling operations: handlers and the in-flight error are untouched
+pub open spec fn only_chan(o: &Fiber, n: &Fiber) -> bool { n.handlers == o.handlers && n.error == o.error && n.error_in_handler == o.error_in_handler }
 
 impl Fiber {
+  pub fn error(&self) -> (r: Option<InstRef>) ensures r == self.error { self.error }
+
+  /// real: asserts that a handler is active, then pops it
+  #[verifier::external_body]
+  pub fn pop_exception_handler(&mut self)
+    requires old(self).handlers@.len() > 0
+    ensures final(self).handlers@ == old(self).handlers@.drop_last(), final(self).stack == old(self).stack, final(self).state == old(self).state,
+            final(self).me == old(self).me, final(self).pool == old(self).pool, final(self).used == old(self).used, final(self).error == old(self).error,
+            final(self).error_in_handler == old(self).error_in_handler
+  { }
+
+  /// R9: `let mut fiber = self.fiber; fiber.push_exception_handler(self, offset, slot_depth)` (root context dropped)
+  #[verifier::external_body]
+  pub fn push_exception_handler(&mut self, offset: usize, slot_depth: usize)
+    ensures final(self).handlers@ == old(self).handlers@.push(Handler { offset: offset as int, depth: slot_depth as int }),
+            final(self).stack == old(self).stack, final(self).state == old(self).state,
+            final(self).me == old(self).me, final(self).pool == old(self).pool, final(self).used == old(self).used, final(self).error == old(self).error,
+            final(self).error_in_handler == old(self).error_in_handler
+  { }
+
+  #[verifier::external_body]
+  pub fn error_while_handling(&mut self)
+    ensures final(self).error_in_handler@, final(self).stack == old(self).stack, final(self).state == old(self).state, final(self).handlers == old(self).handlers,
+            final(self).me == old(self).me, final(self).pool == old(self).pool, final(self).used == old(self).used, final(self).error == old(self).error
+  { }
+
   pub fn push(&mut self, value: Value)
     ensures final(self).stack@ == old(self).stack@.push(value), only_stack(old(self), final(self))
   { self.stack.push(value) }
@@ -173,13 +243,13 @@ impl Fiber {
   /// real: asserts Running, state = Pending, own waiter becomes runnable
   pub fn sleep(&mut self)
     requires old(self).state == FState::Running
-    ensures final(self).state == FState::Pending, final(self).stack == old(self).stack, final(self).me == old(self).me, final(self).pool == old(self).pool, final(self).used == old(self).used
+    ensures final(self).state == FState::Pending, final(self).stack == old(self).stack, only_chan(old(self), final(self)), final(self).me == old(self).me, final(self).pool == old(self).pool, final(self).used == old(self).used
   { self.state = FState::Pending; }
 
   /// real: asserts Running, state = Blocked (not runnable until a channel partner unblocks it)
   pub fn block(&mut self)
     requires old(self).state == FState::Running
-    ensures final(self).state == FState::Blocked, final(self).stack == old(self).stack, final(self).me == old(self).me, final(self).pool == old(self).pool, final(self).used == old(self).used
+    ensures final(self).state == FState::Blocked, final(self).stack == old(self).stack, only_chan(old(self), final(self)), final(self).me == old(self).me, final(self).pool == old(self).pool, final(self).used == old(self).used
   { self.state = FState::Blocked; }
 
   /// real: scans the used channels and takes (removes) the first runnable waiter parked on one of them
@@ -188,14 +258,14 @@ impl Fiber {
     ensures
       old(self).pool@.len() == 0 ==> r is None && final(self).pool@ == old(self).pool@,
       old(self).pool@.len() > 0 ==> r == Some(old(self).pool@[0]) && final(self).pool@ == old(self).pool@.subrange(1, old(self).pool@.len() as int),
-      final(self).stack == old(self).stack, final(self).state == old(self).state, final(self).me == old(self).me, final(self).used == old(self).used,
+      final(self).stack == old(self).stack, only_chan(old(self), final(self)), final(self).state == old(self).state, final(self).me == old(self).me, final(self).used == old(self).used,
   { None }
 
   /// R9: `let mut fiber = self.fiber; fiber.add_used_channel(self.gc.borrow_mut(), self, channel)` (allocator and root context dropped)
   #[verifier::external_body]
   pub fn add_used_channel(&mut self, channel: ChanRef)
     ensures final(self).used@ == old(self).used@.insert(channel),
-      final(self).stack == old(self).stack, final(self).state == old(self).state, final(self).me == old(self).me, final(self).pool == old(self).pool,
+      final(self).stack == old(self).stack, only_chan(old(self), final(self)), final(self).state == old(self).state, final(self).me == old(self).me, final(self).pool == old(self).pool,
   { }
 
   pub fn peek_set(&mut self, distance: usize, value: Value)
@@ -239,10 +309,6 @@ pub broadcast axiom fn axiom_chan_value(v: Value)
 ;
 
 // ---- the interpreter (projection of laythe_vm::vm::Vm to what the covered handlers touch) ------------------------
-#[verifier::external_body]
-#[derive(Clone, Copy)]
-pub struct ClassRef { p: usize }
-
 pub struct Errors { pub runtime: ClassRef, pub type_: ClassRef, pub value: ClassRef, pub property: ClassRef, pub error: ClassRef }
 pub struct BuiltIn { pub errors: Errors }
 
@@ -293,8 +359,23 @@ impl Vm {
   pub fn runtime_error_from_str(&mut self, error: ClassRef, message: &str) -> (r: ExecutionSignal)
     ensures r == ExecutionSignal::RuntimeError, final(self).raised@ == Some(error), final(self).ip == old(self).ip,
             final(self).fiber.used == old(self).fiber.used, final(self).fiber.pool == old(self).fiber.pool,
+            final(self).fiber.handlers == old(self).fiber.handlers, final(self).fiber.error_in_handler == old(self).fiber.error_in_handler,
             final(self).constants == old(self).constants, final(self).builtin == old(self).builtin, final(self).queued == old(self).queued
   { ExecutionSignal::RuntimeError }
+
+  /// make `error` the fiber's in-flight error and start unwinding
+  #[verifier::external_body]
+  pub fn set_error(&mut self, error: InstRef) -> (r: ExecutionSignal)
+    ensures r == ExecutionSignal::RuntimeError, final(self).fiber.error == Some(error), final(self).raised == old(self).raised, final(self).ip == old(self).ip,
+            final(self).fiber.handlers == old(self).fiber.handlers, final(self).constants == old(self).constants, final(self).builtin == old(self).builtin
+  { ExecutionSignal::RuntimeError }
+
+  /// R9: `self.ip.offset_from(&instructions()[0])` — the byte offset of ip inside the current function
+  #[verifier::external_body]
+  pub fn ip_offset(&self) -> (r: usize)
+    requires 0 <= self.ip@ <= usize::MAX
+    ensures r == self.ip@
+  { 0 }
 
   /// interning allocation of a string buffer
   #[verifier::external_body]
@@ -312,9 +393,9 @@ impl Vm {
 
   /// C16: an internal error is a host panic; the handlers must never reach it
   #[verifier::external_body]
-  pub fn internal_error(&self, message: &str) -> (r: ExecutionSignal)
+  pub fn internal_error(&self, message: &str) -> !
     requires false
-  { ExecutionSignal::Exit }
+  { panic!() }
 }
 
 // R12: if_let_obj! / to_obj_kind! copied from laythe_core/src/macros.rs with the `$crate::` prefixes and `use` lines removed
